@@ -237,7 +237,7 @@ DIMS = [
     ("downsample", [None, 5]),
     ("motion_filter", [None, (0.5, 30.0), (100.0, 40.0)]),
     ("t_max_diff", [0.01, 0.3]),
-    ("t_offset", [0.0, 0.125]),
+    ("t_offset", [0.0, 0.125, 1.0]),
     ("crop", [None, (1.5, 4.0)]),
     ("project", [None, "xy", "xz", "yz"]),
     ("unit", [None, "compatible", "incompatible"]),
@@ -383,7 +383,7 @@ def lattice_points(ctx):
              ("from_ref", [False, True]), ("align", ["none", "as"]),
              ("downsample", [None, 5]),
              ("motion_filter", [None, (0.5, 30.0)]),
-             ("t_max_diff", [0.01, 0.3]), ("t_offset", [0.0, 0.125]),
+             ("t_max_diff", [0.01, 0.3]), ("t_offset", [0.0, 0.125, 1.0]),
              ("crop", [None, (1.5, 4.0)]), ("project", [None, "xz"]),
              ("unit", [None, "incompatible"]), ("fmt", ["tum", "euroc"])]
         for p in lattice.product(b):
